@@ -74,6 +74,10 @@ func c12Run(c *h.Ctx) {
 		cur = blindLvl{p.Cfg.Level, p.Cfg.Ante, p.Cfg.Dealer, p.Cfg.SB, p.Cfg.BB}
 		atSignal = cur
 	}
+	// an update issued from a second goroutine 0..2 ms after the last settlement signal overlaps the engine opening
+	// the hand: that hand is played at the old or at the new level (as a whole), every later hand at the new one
+	var alt *blindLvl
+	var altDone chan struct{}
 	mon.BeforeSignal = func(p *Play) {
 		if breakPending {
 			return
@@ -82,6 +86,20 @@ func c12Run(c *h.Ctx) {
 			setLevel(p, nextLevel(), "between-hands")
 		}
 		atSignal = cur
+		if r.Intn(4) == 0 {
+			l := nextLevel()
+			alt, altDone = &l, make(chan struct{})
+			delay := time.Duration(r.Intn(2000)) * time.Microsecond
+			te := p.SS.S.TE
+			go func(done chan struct{}) {
+				time.Sleep(delay)
+				te.UpdateBlind(l.Level, l.Ante, l.Dealer, l.SB, l.BB)
+				close(done)
+			}(altDone)
+			cur = l
+			updates++
+			c.Feature("update:overlapping-the-open")
+		}
 	}
 	mon.BeforeAct = func(p *Play, e *h.Ev, gp int, pid string) bool {
 		if midUpdates < 2 && r.Intn(6) == 0 {
@@ -116,6 +134,17 @@ func c12Run(c *h.Ctx) {
 			m["level_at_open"] = atSignal.String()
 			m["level_now"] = cur.String()
 			return m
+		}
+		if alt != nil {
+			<-altDone
+			// (two levels may charge the same amounts: the published level number then tells which one the hand has)
+			if sameMoney(*alt, st.GameState.Meta.Ante, st.GameState.Meta.Blind) && (!sameMoney(atSignal, st.GameState.Meta.Ante, st.GameState.Meta.Blind) || (st.GameBlindState != nil && lvlOfState(st.GameBlindState) == *alt)) {
+				atSignal = *alt // the update came first
+				c.Feature("overlapping-update-came-before-the-open")
+			} else {
+				c.Feature("overlapping-update-came-after-the-open")
+			}
+			alt = nil
 		}
 		if !sameMoney(atSignal, st.GameState.Meta.Ante, st.GameState.Meta.Blind) {
 			sig := "C12/hand-not-played-at-level-in-force-at-open"
@@ -258,6 +287,16 @@ func c12BreakInContinueInterval(c *h.Ctx) {
 	} else {
 		s.TE.UpdateBlind(-1, 0, 0, 0, 0)
 		c.Feature("break-set-in-continue-interval")
+	}
+	// fewer players with chips than the table minimum pauses the table whatever the level
+	alive := 0
+	for _, ps := range hd.Settled.T.State.PlayerStates {
+		if ps.Bankroll > 0 {
+			alive++
+		}
+	}
+	if alive < hd.Settled.T.Meta.TableMinPlayerCount {
+		want = "pause"
 	}
 	got := ""
 	s.WaitFor(5*time.Second, func(e *h.Ev) bool {
